@@ -839,7 +839,7 @@ class _TftpReadRequest:
             # already have read from it.
             try:
                 self._options[OPTION_TRANSFER_SIZE] = str(
-                    len(self._file.getbuffer()) - self._file.tell()
+                    max(len(self._file.getbuffer()) - self._file.tell(), 0)
                 )
             except ValueError:
                 # We ignore any exception that might happen here: We can still
